@@ -267,6 +267,11 @@ func (r *Runner) runMoqTo(cwd string, args []string, plan *simos.Rule, tmp strin
 	return res
 }
 
+// RunPlain runs moq without any fault plan and returns its exit status.
+func (r *Runner) RunPlain(cwd string, args []string, tmp string) int {
+	return r.runMoq(cwd, args, nil, tmp).Exit
+}
+
 func looksLikeSource(b []byte) bool {
 	return bytes.Contains(b, []byte("Code generated by moq")) || bytes.Contains(b, []byte("func (mock ")) ||
 		bytes.Contains(b, []byte("struct {\n"))
